@@ -504,6 +504,12 @@ Section Inst.
     - intros o Ho. assert (Hb := ops_binop _ _ _ _ _ _ _ Hl Ho). specialize (Hlt o Hb). lia.
   Qed.
 
+  Lemma inst_doc_parses_eq : forall eof P r ts a x,
+    classify tok Doc.is_operand Doc.is_prefix Doc.is_binop Doc.is_postfix ts = Some a ->
+    split_alt tok Doc.prec Doc.rassoc a = x ->
+    0 <= r <= if_cond_level -> Parses eof P r ts x.
+  Proof. intros; subst; apply inst_doc_parses; auto. Qed.
+
   (* if C T else X : for all nestings (X may be another if form: else-if chains) *)
   Theorem inst_if_else : forall eof P C c T t X x rbp,
     0 <= rbp ->
@@ -551,5 +557,75 @@ Section Inst.
   Proof.
     intros eof P r ts x H HP. specialize (H [] I HP (fuel_for tok ts) (le_n _)).
     rewrite app_nil_r in H. exact H.
+  Qed.
+
+  (* ---- normalizeArraySelector ---- *)
+  Definition sel_conv (s : Doc.sselector) : selector :=
+    match s with
+    | Doc.SSRaw l => SelRaw l
+    | Doc.SSIdx x => SelIdx x
+    | Doc.SSSlice a b => SelSlice a b
+    end.
+
+  Lemma parse_one_doc : forall ts x, Doc.parse ts = Some x -> m_parse_one E K nf ts = ROk (x, []).
+  Proof.
+    intros ts x H. unfold Doc.parse, spec_parse in H.
+    destruct (classify tok Doc.is_operand Doc.is_prefix Doc.is_binop Doc.is_postfix ts) as [a|] eqn:Ec; [|discriminate].
+    inversion H; subst. unfold m_parse_one, parse_one.
+    exact (instance_correct _ ts a Ec).
+  Qed.
+
+  Lemma seg_doc : forall ts o, Doc.seg ts = Some o -> parse_segment E K nf ts = ROk o.
+  Proof.
+    intros ts o H. unfold Doc.seg in H. unfold parse_segment. destruct ts as [|t r].
+    - now inversion H.
+    - destruct (Doc.parse (t :: r)) as [x|] eqn:Ep; [|discriminate]. inversion H; subst.
+      now rewrite (parse_one_doc _ _ Ep).
+  Qed.
+
+  Lemma block_two_rest : forall ts x1 x2 xs,
+    Doc.block ts = Some (x1 :: x2 :: xs) -> forallb Doc.is_operand ts = true ->
+    exists y t rest, m_parse_one E K nf ts = ROk (y, t :: rest).
+  Proof.
+    intros ts x1 x2 xs Hb Hop. apply instance_block in Hb.
+    unfold m_parse_block, parse_block in Hb. unfold m_parse_one, parse_one.
+    destruct ts as [|t r]; [discriminate|].
+    cbn [forallb] in Hop. apply andb_prop in Hop. destruct Hop as (Ht & _).
+    assert (Hs : is_semi t = false).
+    { destruct (is_semi t) eqn:Es; auto. destruct (I_semi t Es). congruence. }
+    change (S (length (t :: r))) with (S (S (length r))) in Hb.
+    rewrite (stmts_S tok (lbp_of E K) (nud_of E) (led_of E K) is_else nf _ is_semi is_label_for) in Hb.
+    cbn [drop_semis] in Hb. rewrite Hs in Hb.
+    destruct (is_label_for (t :: r)); [discriminate|].
+    destruct (expr tok (lbp_of E K) (nud_of E) (led_of E K) is_else nf (last (map Some (t :: r)) None)
+                (fuel_for tok (t :: r)) 0 (t :: r)) as [[y rest]| | | |]; try discriminate.
+    destruct rest as [|t' rest']; [|eauto].
+    exfalso. cbn [bind fst snd] in Hb.
+    rewrite (stmts_S tok (lbp_of E K) (nud_of E) (led_of E K) is_else nf _ is_semi is_label_for) in Hb.
+    cbn [drop_semis bind] in Hb.
+    destruct (match y with Leaf t0 => negb (is_semi t0) | _ => true end); inversion Hb.
+  Qed.
+
+  (* the index / slice selector the model of normalizeArraySelector builds is the documented one:
+     [i] with the oracle tree of i, [a : b] / [: b] / [a :] / [:] with the oracle trees of the
+     bounds, the raw tokens for a single token or several juxtaposed operands (hash multi-key) *)
+  Theorem inst_selector : forall content s,
+    Doc.selector content = Some s -> norm_selector E K nf content = ROk (sel_conv s).
+  Proof.
+    intros content s H. unfold Doc.selector in H. unfold norm_selector.
+    destruct (length (filter is_colon (split_colon_tail content))) as [|[|n]].
+    - destruct (split_colon_tail content) as [|t1 [|t2 r]].
+      + now inversion H.
+      + now inversion H.
+      + destruct (Doc.parse (t1 :: t2 :: r)) as [x|] eqn:Ep.
+        * inversion H; subst. now rewrite (parse_one_doc _ _ Ep).
+        * destruct (Doc.block (t1 :: t2 :: r)) as [[|x1 [|x2 xs]]|] eqn:Eb; try discriminate.
+          destruct (forallb Doc.is_operand (t1 :: t2 :: r)) eqn:Eo; [|discriminate].
+          inversion H; subst.
+          destruct (block_two_rest _ _ _ _ Eb Eo) as (y & t' & rest & Hy). now rewrite Hy.
+    - destruct (Doc.seg (fst (split_at_colon (split_colon_tail content)))) as [a|] eqn:Ea; [|discriminate].
+      destruct (Doc.seg (snd (split_at_colon (split_colon_tail content)))) as [b|] eqn:Eb; [|discriminate].
+      inversion H; subst. rewrite (seg_doc _ _ Ea), (seg_doc _ _ Eb). reflexivity.
+    - discriminate.
   Qed.
 End Inst.
